@@ -54,18 +54,20 @@ class BufGen(ProgGen):
     def stack_has_cap(self):
         return False
 
-    ELEM_EQ_OPS = {"lremove", "lindex", "lcount", "lcontains"}
+    ELEM_EQ_OPS = {"lremove", "lindex", "lcount", "lcontains", "lrepr", "drepr"}
 
     def next_call(self):
-        # Under shared-memory aliasing the children of one object's list can belong to another
-        # root; comparing them (`child == x`) loads that other root mid-operation, which the
-        # model does not express.  Avoid element comparisons against container children there.
+        # Under shared-memory aliasing the children of one object's data can belong to another
+        # root (the objects keep sharing one container after a flush); comparing them
+        # (`child == x`) or printing them (`repr`) loads that other root mid-operation, which the
+        # model does not express.  Avoid such reads against container children there.
         for _ in range(20):
             op = super().next_call()
             if self.fam.buffered == "memory" and len(self.r.root_objs()) > len(self.resources) \
                     and op[2] in self.ELEM_EQ_OPS:
                 cur = self.r.target(op[1])._to_base()
-                if any(isinstance(x, (dict, list)) for x in cur):
+                vals = cur.values() if isinstance(cur, dict) else cur
+                if any(isinstance(x, (dict, list)) for x in vals):
                     continue
             return op
         return op
